@@ -9,6 +9,7 @@ from pydantic import BaseModel, ConfigDict, Field, field_validator
 from rtflite.row import (
     BORDER_CODES,
     FORMAT_CODES,
+    ROW_JUSTIFICATION_CODES,
     TEXT_JUSTIFICATION_CODES,
     VERTICAL_ALIGNMENT_CODES,
     Border,
@@ -473,7 +474,7 @@ class TableAttributes(TextAttributes):
     cell_justification: list[list[str]] = Field(
         default=[["l"]],
         description=(
-            "Cell horizontal alignment ('l'=left, 'c'=center, 'r'=right, 'j'=justify)"
+            "Cell (table row) horizontal alignment ('l'=left, 'c'=center, 'r'=right)"
         ),
     )
 
@@ -563,9 +564,12 @@ class TableAttributes(TextAttributes):
         if v is None:
             return v
 
+        # cell_justification aligns the table row (\\trql, \\trqc, \\trqr): only
+        # the row codes can be rendered, so anything else is rejected here
+        # instead of failing later in rtf_encode().
         for row in v:
             for justification in row:
-                if justification not in TEXT_JUSTIFICATION_CODES:
+                if justification not in ROW_JUSTIFICATION_CODES:
                     raise ValueError(f"Invalid cell justification: {justification}")
         return v
 
